@@ -93,14 +93,14 @@ def step (st : St) : List String → St × String
     match cfg? cfg, bool? ext with
     | some cfg, some ext => ({ s := some (Commit.init shaHs cfg ext) }, "ok")
     | _, _ => (st, "bad-op")
-  | ["own", ts, md, es, hasPre, preOk, stale] =>
-    match ts.toNat?, Bytes.ofHex md, entries? es, bool? hasPre, bool? preOk, dg? stale with
-    | some ts, some md, some es, some hp, some po, some sl => apply st (.own ⟨ts, md, es, hp, po, sl⟩)
-    | _, _, _, _, _, _ => (st, "bad-op")
-  | ["rep", hdr, es, skip, stale] =>
-    match hdr? hdr, entries? es, bool? skip, dg? stale with
-    | some h, some es, some sk, some sl => apply st (.rep ⟨h, es, sk, sl⟩)
-    | _, _, _, _ => (st, "bad-op")
+  | ["own", ts, md, es, hasPre, preOk] =>
+    match ts.toNat?, Bytes.ofHex md, entries? es, bool? hasPre, bool? preOk with
+    | some ts, some md, some es, some hp, some po => apply st (.own ⟨ts, md, es, hp, po⟩)
+    | _, _, _, _, _ => (st, "bad-op")
+  | ["rep", hdr, es, skip] =>
+    match hdr? hdr, entries? es, bool? skip with
+    | some h, some es, some sk => apply st (.rep ⟨h, es, sk⟩)
+    | _, _, _ => (st, "bad-op")
   | ["sync"] => apply st .sync
   | ["discard", t] => match t.toNat? with | some t => apply st (.discard t) | none => (st, "bad-op")
   | ["allow", t] => match t.toNat? with | some t => apply st (.allow t) | none => (st, "bad-op")
